@@ -271,6 +271,10 @@ def handleEnforce : Handler := fun inp out => do
   let mut sig := ""
   let mut i := 0
   let mut nt := false
+  -- the implementation's own state before each operation (for the "no effect" /
+  -- "never overwrite" predicates, which must not depend on the model's state)
+  let mut gAccounts : Json := accountsJson st.accounts
+  let mut gTxs : Json := Json.num 0
   for oj in (← arrField inp "ops") do
     let kind ← strField oj "kind"
     let version := optStrField oj "version"
@@ -345,24 +349,26 @@ def handleEnforce : Handler := fun inp out => do
     if gErr ≠ "" then
       if !(commits = 0 && rolls ≥ 1) then
         prop := false; note := "rejected write was not rolled back"; sig := "C29:no-effect"
-      if !(jsonEq (getD g "accounts" .null) (accountsJson before.accounts)) ||
-         getD g "txs" .null != Json.num before.txCount then
+      if !(jsonEq (getD g "accounts" .null) gAccounts) || !(jsonEq (getD g "txs" .null) gTxs) then
         prop := false; note := "rejected write changed the ledger"; sig := "C29:no-effect"
     else if commits ≠ 1 then
       prop := false; note := "accepted write not committed exactly once"; sig := "C29:commit"
     -- defaults never overwrite existing values
     if gErr = "" then
-      match g.getObjVal? "accounts" with
-      | .ok (.obj after) =>
-        for (a, m) in before.accounts do
-          let explicit : Meta := match d with
-            | .accept _ ups _ => ((ups.find? (·.address = a)).map (·.explicit)).getD []
-            | _ => []
-          let am := metaOfJson ((after.get? (String.ofList a)).getD .null)
-          for (k, v) in m do
-            if (explicit.lookup k).isNone && am.lookup k ≠ some v then
+      -- explicit values of this write, from the request itself
+      let explicitOf (a : String) : Meta :=
+        if kind = "savemeta" then (if optStrField oj "address" = a then metaOfJson (getD oj "metadata" .null) else [])
+        else metaOfJson (getD (getD oj "accountMetadata" .null) a .null)
+      match g.getObjVal? "accounts", gAccounts with
+      | .ok (.obj after), .obj prev =>
+        for (a, mj) in prev.toList do
+          let am := metaOfJson ((after.get? a).getD .null)
+          for (k, v) in metaOfJson mj do
+            if ((explicitOf a).lookup k).isNone && am.lookup k ≠ some v then
               prop := false; note := "existing metadata value overwritten"; sig := "C29:defaults-overwrite"
-      | _ => pure ()
+      | _, _ => pure ()
+    gAccounts := getD g "accounts" gAccounts
+    gTxs := getD g "txs" gTxs
     i := i + 1
   let model := Json.mkObj [("schemaErrs", jStrs schemaErrs), ("ops", Json.arr results.toArray)]
   let keys := ["err", "errMsg", "postings", "upserts", "txs", "accounts"]
